@@ -1,4 +1,5 @@
 import ScriggoV.Basic.Kind
+import ScriggoV.Basic.Utf8
 /-! # The Go specification of integer arithmetic, on mathematical integers
 
 Hand-written from "The Go Programming Language Specification" (Arithmetic operators, Integer
@@ -88,5 +89,11 @@ def cmp (op : CmpOp) (x y : Int) : Bool :=
 implicit infinite precision; otherwise it is zero extended. It is then truncated to fit in the
 result type's size" — i.e. the mathematical value wrapped to the destination kind -/
 def conv (dst : Kind) (z : Int) : Int := wrap dst z
+
+/-- conversion of an integer value to a string type: "yields a string containing the UTF-8
+representation of the integer. Values outside the range of valid Unicode code points are
+converted to "\uFFFD"" (surrogate halves are not valid code points either: `Utf8.encodeRune`) -/
+def intToString (z : Int) : Bytes :=
+  if 0 ≤ z ∧ z ≤ 0x10FFFF then Utf8.encodeRune z.toNat else Utf8.encodeRune 0xFFFD
 
 end ScriggoV.GoInt
